@@ -174,6 +174,34 @@ def opHex (s : Str) (assign : Bool) (bytes : List Nat) (sep : Nat) : Option (Str
   let t := if sep ≠ 0 then (bytes.map hx).intersperse [sep] |>.flatten else (bytes.map hx).flatten
   opBytes s assign t
 
+/-- `_op_vformat(op, fmt, ap)` WITHOUT the formatting itself: `vsnprintf` is an oracle that produces the byte string `out`
+(no NUL inside, length = its return value) and, given a buffer of `n` bytes, stores `out.take (n - 1)` and a terminator.
+Modelled: which buffer is handed to it, how the size is updated, the fallback through the 1024-byte stack buffer and
+`prepare`.  REPAIRED code (fixes/C18-6.patch): the in-place call passes `remaining_capacity + 1` bytes; fixes/C18-10.patch: a failing
+`prepare` after an in-place overflow leaves a well-formed string. -/
+def opFormat (s : Str) (assign : Bool) (out : List Nat) : Option (Str × Err) :=
+  let startAt := if assign then 0 else s.size
+  let remaining := s.cap - startAt
+  -- `inPlace`: the in-place attempt has already overwritten the buffer from `start_at` on; REPAIRED code
+  -- (fixes/C18-10.patch): when `prepare` then fails, an append restores the terminator at `start_at`, an assign clears
+  let viaPrepare (s0 : Str) (inPlace : Bool) : Option (Str × Err) :=
+    match prepare s0 assign out.length with
+    | none => none
+    | some none =>
+      if inPlace then
+        (if assign then (clear s0).map (·, .oom) else (write s0 startAt [0]).map (·, .oom))
+      else some (s0, .oom)
+    | some (some (s', off)) => (write s' off (out ++ [0])).map fun s'' => (s'', .ok)
+  if remaining ≥ 128 then
+    -- vsnprintf(data() + start_at, remaining_capacity + 1, …)
+    match write s startAt (out.take remaining ++ [0]) with
+    | none => none
+    | some s1 =>
+      if out.length ≤ remaining then some ({ s1 with size := startAt + out.length }, .ok)
+      else viaPrepare s1 true
+  else
+    if out.length < 1024 then opString s assign out else viaPrepare s false
+
 /-- `truncate(new_size)` -/
 def truncate (s : Str) (n : Nat) : Option Str :=
   if n < s.size then write { s with size := n } n [0] else some s
